@@ -2,6 +2,7 @@ import Sebuf.Driver
 import Sebuf.DriverC12
 import Sebuf.DriverC16
 import Sebuf.DriverC02
+import Sebuf.DriverC01
 namespace Sebuf.DriverOps
 open Lean (Json)
 def dispatch (op : String) (j : Json) : Json :=
@@ -11,6 +12,8 @@ def dispatch (op : String) (j : Json) : Json :=
   | "gen_outcome" => Sebuf.Driver.opGenOutcome j
   | "mock_graph" => Sebuf.Driver.opMockGraph j
   | "bind_case" => Sebuf.Driver.opBindCase j
+  | "call_outcome" => Sebuf.Driver.opCallOutcome j
+  | "client_url" => Sebuf.Driver.opClientUrl j
   | "strfn" => Sebuf.Driver.opStrFn j
   | _ => Json.mkObj [("driver_err", Json.str ("unknown op " ++ op))]
 end Sebuf.DriverOps
